@@ -285,7 +285,8 @@ func accesses(fset *token.FileSet, pkg, fname string, fd *ast.FuncDecl, info *ty
 			}
 			switch {
 			case strings.HasPrefix(name, "atomic."), short == "Wait", short == "Lock", short == "Unlock", short == "Done",
-				short == "getUpdateTime", short == "IsZero", short == "getPredecessor", short == "close":
+				short == "getUpdateTime", short == "IsZero", short == "getPredecessor", short == "close",
+				short == "queueLoad", short == "queueCas", short == "fetchWheelData", short == "checkInitSlow":
 				syncOps = append(syncOps, syncOp{x.Pos(), name})
 			}
 		case *ast.UnaryExpr:
